@@ -1090,23 +1090,24 @@ class CSSMatch(_DocumentNav):
         """Match element if it contains text."""
 
         match = True
-        content = None  # type: str | Sequence[str] | None
+        content = None  # type: str | None
+        own_content = None  # type: Sequence[str] | None
         for contain_list in contains:
-            if content is None:
-                if contain_list.own:
-                    content = self.get_own_text(el, no_iframe=self.is_html)
-                else:
-                    content = self.get_text(el, no_iframe=self.is_html)
             found = False
-            for text in contain_list.text:
-                if contain_list.own:
-                    for c in content:
+            if contain_list.own:
+                if own_content is None:
+                    own_content = self.get_own_text(el, no_iframe=self.is_html)
+                for text in contain_list.text:
+                    for c in own_content:
                         if text in c:
                             found = True
                             break
                     if found:
                         break
-                else:
+            else:
+                if content is None:
+                    content = self.get_text(el, no_iframe=self.is_html)
+                for text in contain_list.text:
                     if text in content:
                         found = True
                         break
